@@ -227,6 +227,14 @@ func c13b(c *Ctx) {
 					}
 				}
 			}
+			// ... or a variable captured by the literal whose single definition is <temp file>.Name()
+			if !okSrc {
+				if call, ok := ast.Unparen(lit.ResolveDeep(src).E).(*ast.CallExpr); ok {
+					if sel, ok := ast.Unparen(call.Fun).(*ast.SelectorExpr); ok && sel.Sel.Name == "Name" && objOf(info, sel.X) == fileObj && fileObj != nil {
+						okSrc = true
+					}
+				}
+			}
 			if f.paramObj("name") == objOf(info, dst) {
 				okDst = true
 			}
